@@ -301,6 +301,8 @@ class HybridClass(metaclass=MetaHybridClass):
         for kk, vv in dct.items():
             xo_name = cls._inverse_rename.get(kk, kk)
             ftype = getattr(getattr(cls._XoStruct, xo_name, None), "ftype", None)
+            # a reference field takes the dictionary of its target
+            ftype = getattr(ftype, "_reftype", ftype)
             if isinstance(vv, dict) and hasattr(ftype, "_DressingClass"):
                 vv = ftype._DressingClass._to_xo_names(vv)
             out[xo_name] = vv
